@@ -137,11 +137,16 @@ Definition next_count (o : wobj) (count : Z) : Z := if w_code o =? 115 then coun
 
 Notation OL := (obj_loop cs scan_p default_cap factory_table C_ohb fid_objectSize fid_objectType).
 
-Lemma obj_step : forall o fuel i rest acc count, wobj_ok o -> nstream i -> s_good i = true -> s_after i = w_bytes o ++ rest ->
-  exists d i', same_obj o d /\ nstream i' /\ s_good i' = true /\ s_after i' = rest /\
-    OL (S fuel) i acc count = OL fuel i' (acc ++ [d]) (next_count o count).
+(* the pieces of one iteration on a stream that holds the whole object: the header, the seek back, the object *)
+Lemma obj_step_parts : forall o i rest, wobj_ok o -> nstream i -> s_good i = true -> s_after i = w_bytes o ++ rest ->
+  exists h i1 r' i3,
+    dec cs scan_p default_cap C_ohb (fresh cs C_ohb) i = Ok (h, i1) /\ nstream i1 /\ s_good i1 = true /\ s_pos i1 = s_pos i + 16 /\
+    geti h fid_objectSize = w_osz o /\ geti h fid_objectType = w_code o /\
+    nstream (s_seek (-16) i1) /\ s_good (s_seek (-16) i1) = true /\ s_pos (s_seek (-16) i1) = s_pos i /\
+    dec cs scan_p default_cap (w_cls o) (fresh cs (w_cls o)) (s_seek (-16) i1) = Ok (r', i3) /\
+    nstream i3 /\ s_good i3 = true /\ s_after i3 = rest /\ same_obj o (w_cls o, r') /\ geti r' fid_objectType = w_code o.
 Proof.
-  intros o fuel i rest acc count (Hc & Hex & Hapi & Henc & Htype & Hfac & Hnz & Hosz & Hsz0 & Hle) Hi Hg Ha.
+  intros o i rest (Hc & Hex & Hapi & Henc & Htype & Hfac & Hnz & Hosz & Hsz0 & Hle) Hi Hg Ha.
   destruct (object_written _ Hc Hex _ _ _ Hapi Henc) as (Hrunw & Hws' & Hds' & Hsig').
   pose proof (forallb_minus header_ok _ _ header_ok_all _ Hc Hex) as Hh. unfold header_ok in Hh.
   destruct (strip_writes hdr_fields (emit_of (w_cls o))) as [k|] eqn:Hstrip; [|discriminate].
@@ -153,16 +158,34 @@ Proof.
   destruct (header_decode _ _ _ _ Hws' Hdh Hsig' Hhdr Hi Ha) as (h & i1 & Hdec1 & Hn1 & Ha1 & Hg1 & Hho & Hht).
   specialize (Hg1 Hg).
   assert (Hdata : s_data i1 = s_data i) by (unfold dec in Hdec1; eapply run_r_data; eauto).
-  destruct (seek_back_restores i i1 hdr (rb ++ rest) Hi Hn1 Hdata Ha Ha1) as (Hn2 & Ha2 & Hg2 & _). rewrite Hlen in *.
+  destruct (seek_back_restores i i1 hdr (rb ++ rest) Hi Hn1 Hdata Ha Ha1) as (Hn2 & Ha2 & Hg2 & Hp2 & Hz2). rewrite Hlen in *.
   set (i2 := s_seek (-16) i1) in *.
+  assert (Hp1 : s_pos i1 = s_pos i + 16).
+  { destruct Hi as (A1 & A2 & A3 & A4). destruct Hn1 as (B1 & B2 & B3 & B4).
+    unfold s_data in Hdata. rewrite !rev_append_rev in Hdata. rewrite Ha, Ha1 in Hdata.
+    apply (f_equal (@zlen Z)) in Hdata. rewrite !zlen_app, !zlen_rev in Hdata. lia. }
   rewrite app_assoc, <- Ebytes in Ha2. rewrite Hg1 in Hg2.
   destruct (object_rt_stream _ Hc Hex _ _ _ Hapi Henc i2 rest Hn2 Ha2) as (r' & i3 & Hdec3 & Hn3 & Ha3 & Hg3 & Hem & Hnem).
   specialize (Hg3 Hg2).
   assert (Hrt : r' fid_objectType = VInt (w_code o)).
   { rewrite <- Htype. apply Hem. apply (strip_emitted (callf cs (w_cls o)) _ _ _ (w_st' o) Hstrip). rewrite hdr_fields_eq. cbn [In]. right; right; right; right; left; reflexivity. }
-  exists (w_cls o, r'), i3. split; [split; [reflexivity|split; assumption]|]. split; [exact Hn3|]. split; [exact Hg3|]. split; [exact Ha3|].
-  cbn [obj_loop]. rewrite Hdec1. rewrite Hg1. cbn [negb]. fold i2.
-  unfold geti. rewrite Hho, Hht, Hosz, Htype. rewrite Hfac.
+  exists h, i1, r', i3.
+  split; [exact Hdec1|]. split; [exact Hn1|]. split; [exact Hg1|]. split; [exact Hp1|].
+  split; [unfold geti; rewrite Hho, Hosz; reflexivity|]. split; [unfold geti; rewrite Hht, Htype; reflexivity|].
+  split; [exact Hn2|]. split; [exact Hg2|]. split; [exact Hp2|]. split; [exact Hdec3|]. split; [exact Hn3|]. split; [exact Hg3|]. split; [exact Ha3|].
+  split; [split; [reflexivity|split; assumption]|unfold geti; rewrite Hrt; reflexivity].
+Qed.
+
+Lemma obj_step : forall o fuel i rest acc count, wobj_ok o -> nstream i -> s_good i = true -> s_after i = w_bytes o ++ rest ->
+  exists d i', same_obj o d /\ nstream i' /\ s_good i' = true /\ s_after i' = rest /\
+    OL (S fuel) i acc count = OL fuel i' (acc ++ [d]) (next_count o count).
+Proof.
+  intros o fuel i rest acc count Ho Hi Hg Ha.
+  destruct (obj_step_parts o i rest Ho Hi Hg Ha) as (h & i1 & r' & i3 & Hdec1 & Hn1 & Hg1 & Hp1 & Hho & Hht & Hn2 & Hg2 & Hp2 & Hdec3 & Hn3 & Hg3 & Ha3 & Hsame & Hrt).
+  destruct Ho as (Hc & Hex & Hapi & Henc & Htype & Hfac & Hnz & Hosz & Hsz0 & Hle).
+  exists (w_cls o, r'), i3. split; [exact Hsame|]. split; [exact Hn3|]. split; [exact Hg3|]. split; [exact Ha3|].
+  cbn [obj_loop]. rewrite Hdec1. rewrite Hg1. cbn [negb].
+  rewrite Hho, Hht. rewrite Hfac.
   replace (w_cls o =? 0) with false by (symmetry; apply Z.eqb_neq; exact Hnz).
   rewrite Hsz0.
   replace ((if 16 <? w_osz o then w_osz o else 16) <? w_sz0 o) with false
